@@ -20,6 +20,7 @@ import (
 	"os/exec"
 	"runtime"
 	"runtime/debug"
+	"runtime/pprof"
 	"strings"
 	"sync"
 	"time"
@@ -858,12 +859,30 @@ func main() {
 		replay(run)
 		run.Finish()
 	}
+	if pf := os.Getenv("VERIF_C13_PROF"); pf != "" {
+		f, _ := os.Create(pf)
+		_ = pprof.StartCPUProfile(f)
+		defer pprof.StopCPUProfile()
+	}
+	t0 := time.Now()
+	lap := func(what string) {
+		if os.Getenv("VERIF_C13_TIMING") != "" {
+			fmt.Fprintf(os.Stderr, "timing: %s %.1fs\n", what, time.Since(t0).Seconds())
+		}
+		t0 = time.Now()
+	}
 	exhaustive(run)
+	lap("exhaustive")
 	hostile(run)
+	lap("hostile")
 	risky(run)
+	lap("risky")
 	sample := random(run)
+	lap("random")
 	crossProcess(run, sample)
+	lap("cross-process")
 	run.Extra("exhaustive_part", "all permutations of objects/unions with <=4 members x 8 flag combinations; all single differences on 22 small bases x 8 flag combinations")
 	run.Floor(run.N(2000, 50000))
+	pprof.StopCPUProfile()
 	run.Finish()
 }
